@@ -31,3 +31,9 @@
   (ite (and (>= s 50000) (< s 50100)) 13     ; Internal
   (ite (and (>= s 50300) (< s 50400)) 14     ; Unavailable
   2))))))))
+; every status the kernel defines (t_api/status.go): the domain on which StatusCode.String is total
+(define-fun kstatus.any ((s Int)) Bool
+  (or (= s 20000) (= s 20100) (= s 20400)
+      (= s 40000) (= s 40001) (= s 40300) (= s 40301) (= s 40302) (= s 40303) (= s 40304) (= s 40305) (= s 40306) (= s 40307) (= s 40308)
+      (= s 40400) (= s 40401) (= s 40402) (= s 40403) (= s 40404) (= s 40900) (= s 40901)
+      (= s 50000) (= s 50001) (= s 50002) (= s 50003) (= s 50004) (= s 50300) (= s 50301) (= s 50302) (= s 50303)))
